@@ -1,12 +1,6 @@
 //@unit c16_new__pins props=C16 widths=u32
 //@use prelude/head.rs
 // not under contract: the query functions of StateTable and StateGraph (judged by the brute-force comparison of the c16 sweep when one changes)
-//@pin file=lrtable/src/lib/statetable.rs fn=action sha=8346feeaf49999d8
-//@pin file=lrtable/src/lib/statetable.rs fn=goto sha=9f4bde2ba58e1216
-//@pin file=lrtable/src/lib/statetable.rs fn=state_actions sha=9cc89bac19c3f117
-//@pin file=lrtable/src/lib/statetable.rs fn=state_shifts sha=7273ae58013337bf
-//@pin file=lrtable/src/lib/statetable.rs fn=core_reduces sha=1fb3492116677d21
-//@pin file=lrtable/src/lib/statetable.rs fn=reduce_only_state sha=9a8e4380121adc4b
 //@pin file=lrtable/src/lib/statetable.rs fn=start_state sha=c96a94ae38cf9041
 //@pin file=lrtable/src/lib/statetable.rs fn=conflicts sha=fc10d045686319f2
 //@pin file=lrtable/src/lib/stategraph.rs fn=edge sha=22cfdb027f11d74f
